@@ -277,6 +277,10 @@ class BaseEMSurvey(ObjectBase, ABC):  # pylint: disable=too-many-public-methods
         clear_cache: bool = False,
         mask: np.ndarray | None = None,
     ):
+        if mask is not None and self.complement.n_vertices != self.n_vertices:
+            # e.g. single base station shared by all receivers: copied whole
+            mask = None
+
         new_complement = self.complement._super_copy(  # pylint: disable=protected-access
             parent=parent,
             copy_children=copy_children,
